@@ -20,7 +20,8 @@ from vlib.pat import Pat, returned
 from vlib.front import unparse, dotted, const_value, is_none, walk_local_ordered
 
 M = 'phylib/utils/_misc.py'
-FLOOR = 24
+FLOOR = 14          # decided obligations below this = the analysis lost its footing (exit 2); clean tree: 41
+RULES = ('C18.T1', 'C18.T2', 'C18.T3', 'C18.T4', 'C18.T5')          # every obligation group must report (holds / violated / undecided): a group that vanishes silently is an analysis error
 EXPLANATION = ('tab engine: constant tables and codec structure of the JSON array/key codec, the TSV/CSV '
                'writers and readers, and the parameter-file writer are extracted from the AST of '
                'phylib/utils/_misc.py and compared pairwise (writer vs reader); decides named necessary '
@@ -428,10 +429,18 @@ def t3_tsv(ctx):
     # write_tsv: None for absent fields, first_field first then sorted
     w = repo.func(M, 'write_tsv')
     gets = [c for c in q.calls_named(w, 'get') if isinstance(c.func, ast.Attribute)]
-    ok_none = any((len(c.args) == 1) or (len(c.args) == 2 and (is_none(c.args[1]) or const_value(c.args[1]) == '')) for c in gets)
-    ctx.check(ok_none, 'C18.T3', w, gets[0] if gets else w.node.name,
-              'absent fields are written as empty cells (row.get(field, None))',
-              'absent fields are not written as empty cells')
+    get_refs = [n for n in ast.walk(w.node) if isinstance(n, ast.Attribute) and n.attr == 'get' and isinstance(n.ctx, ast.Load) and
+                not any(isinstance(p_, ast.Call) and p_.func is n for p_ in ast.walk(w.node))]            # `map(row.get, fields)`: the bound method, default None
+    ok_none = any((len(c.args) == 1) or (len(c.args) == 2 and (is_none(c.args[1]) or const_value(c.args[1]) == '')) for c in gets) or bool(get_refs)
+    bad_default = [c for c in gets if len(c.args) == 2 and not (is_none(c.args[1]) or const_value(c.args[1]) == '')]
+    row_sub = [n for n in ast.walk(w.node) if isinstance(n, ast.Subscript) and isinstance(n.ctx, ast.Load) and isinstance(n.value, ast.Name) and n.value.id in ('row', 'r', 'd') and
+               isinstance(n.slice, ast.Name)]
+    if ok_none and not bad_default:
+        ctx.holds('C18.T3', w, 'absent fields are written as empty cells (row.get(field, None))', (gets or get_refs)[0])
+    elif bad_default or (row_sub and not gets and not get_refs):
+        ctx.violated('C18.T3', w, (bad_default or row_sub)[0], 'absent fields are not written as empty cells (`%s`)' % unparse((bad_default or row_sub)[0]))
+    else:
+        ctx.undecided('C18.T3', w, 'how a cell of an absent field is produced was not recognised')
     ff = w.real_params[2] if len(w.real_params) > 2 else 'first_field'
     order_ok = order_bad = False
     node = None
@@ -462,13 +471,20 @@ def t3_tsv(ctx):
     wr_rows = q.calls_named(w, 'writerow', 'writerows')
     hdr = [c for c in wr_rows if q.method_name(c) == 'writerow']
     rows = [c for c in wr_rows if q.method_name(c) == 'writerows']
-    if hdr and rows:
-        hname = unparse(hdr[0].args[0])
-        comp = rows[0].args[0]
-        inner_iter = [g.iter for n in ast.walk(comp) if isinstance(n, (ast.ListComp, ast.GeneratorExp)) for g in n.generators]
-        ctx.check(any(unparse(i) == hname for i in inner_iter), 'C18.T3', w, rows[0],
-                  'data cells are produced by iterating the header field list `%s`' % hname,
-                  'data cells are not produced from the header field list `%s`' % hname)
+    if hdr and hdr[0].args and isinstance(hdr[0].args[0], ast.Name):
+        hname = hdr[0].args[0].id
+        # every iteration that produces the cells of a row: comprehensions, for loops and map(f, <iterable>) - outside the statement that builds the header list
+        iters = [g.iter for n in ast.walk(w.node) if isinstance(n, (ast.ListComp, ast.GeneratorExp)) for g in n.generators] + \
+                [l.iter for l in w.nodes(ast.For)] + [c.args[1] for c in w.calls() if dotted(c.func) == 'map' and len(c.args) == 2]
+        over_header = [i for i in iters if isinstance(i, ast.Name) and i.id == hname]
+        over_row = [i for i in iters if Pat().any(['sorted(V_r)', 'V_r.keys()', 'V_r.values()', 'V_r.items()', 'sorted(V_r.keys())', 'sorted(V_r.items())'], i) and
+                    not (isinstance(i, ast.Call) and any(isinstance(a_, ast.Name) and a_.id == w.real_params[1] for a_ in ast.walk(i)))]
+        if over_header:
+            ctx.holds('C18.T3', w, 'data cells are produced by iterating the header field list `%s`' % hname, over_header[0])
+        elif over_row:
+            ctx.violated('C18.T3', w, over_row[0], 'data cells are produced by iterating `%s`, not the header field list `%s`: cells do not line up with the header' % (unparse(over_row[0]), hname))
+        else:
+            ctx.undecided('C18.T3', w, 'the iteration producing the cells of a row was not recognised')
     # read_tsv: omit empty cells, zip header with row, number recovery
     r = repo.func(M, 'read_tsv')
     clo = repo.transparent_closure(r)
@@ -591,6 +607,12 @@ def t3_tsv(ctx):
         else:
             ctx.check(unparse(ret[-1].elts[0]) == names[1], 'C18.T3', rs, hdr_unp[0],
                       'the returned field name is the second header cell', 'the returned field name is `%s`, not the second header cell' % unparse(ret[-1].elts[0]))
+    number_recovery(ctx)
+
+
+def number_recovery(ctx, rule='C18.T3'):
+    """_try_make_number (shared with C10: metadata values are read back through it): int before float, every float text of the writers accepted, other strings unchanged."""
+    repo = ctx.repo
     # _try_make_number: int is attempted before float
     tm = repo.func(M, '_try_make_number')
     order = []          # conversions in the order in which they are attempted
@@ -601,13 +623,47 @@ def t3_tsv(ctx):
                 any(isinstance(c, ast.Call) and isinstance(c.func, ast.Name) and c.func.id == n.target.id for c in ast.walk(n)):
             order.extend(dotted(x) for x in tm.expand(n.iter).elts)      # `for convert in (int, float): ... convert(value)`
     if order and all(x in ('int', 'float') for x in order) and order[0] == 'int' and 'float' in order:
-        ctx.holds('C18.T3', tm, 'number recovery tries int, then float, then keeps the string', tm.node.name)
+        ctx.holds(rule, tm, 'number recovery tries int, then float, then keeps the string', tm.node.name)
     elif order and all(x in ('int', 'float') for x in order):
-        ctx.violated('C18.T3', tm, tm.node.name, 'number recovery does not try int before float (integers would come back as floats) or lacks the float case')
+        ctx.violated(rule, tm, tm.node.name, 'number recovery does not try int before float (integers would come back as floats) or lacks the float case')
     else:
-        ctx.undecided('C18.T3', tm, 'the conversions attempted by _try_make_number were not recognised (%s)' % order)
+        ctx.undecided(rule, tm, 'the conversions attempted by _try_make_number were not recognised (%s)' % order)
+    # a guard in front of a conversion must accept every text the writers produce for that type (csv writes repr(float): exponent forms included)
+    WITNESS = {'float': ['0.5', '-3.0625', '12.25', '2.5e-05', '3e+16', '1e-07', '1.5e+300'], 'int': ['7', '-3', '0', '123456789012']}
+    mod_ = repo.module(M)
+    for c_ in [n for n in walk_local_ordered(tm.node) if isinstance(n, ast.Call) and dotted(n.func) in ('int', 'float')]:
+        kind = dotted(c_.func)
+        guards = [(i_, br) for i_, br in q.enclosing_ifs(tm, c_, ifexp=True) if br == 'body']
+        if not guards:
+            continue            # attempted unconditionally (try / except decides)
+        for i_, _br in guards:
+            for g_ in q.conjuncts(i_.test):
+                pat_, how = None, None
+                if isinstance(g_, ast.Call) and isinstance(g_.func, ast.Attribute) and g_.func.attr in ('fullmatch', 'match', 'search'):
+                    how = g_.func.attr
+                    rcv = g_.func.value
+                    if isinstance(rcv, ast.Name) and rcv.id in mod_.consts:
+                        cdef = mod_.consts[rcv.id]
+                        if isinstance(cdef, ast.Call) and dotted(cdef.func) == 're.compile' and cdef.args and isinstance(const_value(cdef.args[0]), str):
+                            pat_ = const_value(cdef.args[0])
+                    elif dotted(rcv) == 're' and len(g_.args) >= 2 and isinstance(const_value(g_.args[0]), str):
+                        pat_ = const_value(g_.args[0])
+                if pat_ is None:
+                    ctx.undecided(rule, tm, 'the guard `%s` in front of %s() was not recognised' % (unparse(g_)[:60], kind), g_)
+                    continue
+                import re as _re
+                try:
+                    rx = _re.compile(pat_)
+                    rejected = [w for w in WITNESS[kind] if not getattr(rx, how)(w)]
+                except _re.error:
+                    ctx.undecided(rule, tm, 'the pattern %r does not compile' % pat_, g_)
+                    continue
+                if rejected:
+                    ctx.violated(rule, tm, g_, '%s() is only attempted on texts matching %r, which rejects %s: such %s cells, as the csv writer emits them, come back as strings' % (kind, pat_, rejected[:3], kind))
+                else:
+                    ctx.holds(rule, tm, 'the guard of %s() accepts the texts the writers emit for %s cells (%d witnesses incl. exponent forms)' % (kind, kind, len(WITNESS[kind])), g_)
     fallthrough = [r_ for r_ in tm.returns() if r_.value is not None and unparse(r_.value) == tm.real_params[0]]
-    ctx.check(bool(fallthrough), 'C18.T3', tm, tm.node.name, 'non-numeric strings are returned unchanged', 'non-numeric strings are not returned unchanged')
+    ctx.check(bool(fallthrough), rule, tm, tm.node.name, 'non-numeric strings are returned unchanged', 'non-numeric strings are not returned unchanged')
 
 
 ESCAPING = ('repr', 'json.dumps', 'ascii')
@@ -696,11 +752,60 @@ def t4_write_python(ctx):
     ctx.holds('C18.T4', rp, 'read_python executes the file and returns its variables (keys lower-cased: %s)' % low, rp.node.name, nontrivial=False)
 
 
+def t3_float_cells(ctx):
+    """Float cells of a table: the text written for a float must read back as a FLOAT (the reader tries int first) - a fixed-point / exponent conversion
+    keeps a '.' or an exponent, `%g` drops both for integral values (2.0 -> '2' -> int 2) and keeps significant figures, not decimals."""
+    repo = ctx.repo
+    try:
+        pf = repo.func(M, '_pretty_floats')
+    except Exception:
+        return ctx.undecided('C18.T3', repo.func(M, 'write_tsv'), 'the float formatter of write_tsv was not found')
+    obj = pf.real_params[0]
+    convs = []
+    for test, body in _branches(pf, ctx):
+        if test is None or not any(isinstance(c, ast.Call) and dotted(c.func) == 'isinstance' and c.args and isinstance(c.args[0], ast.Name) and c.args[0].id == obj and
+                                   any((dotted(t_) or '').split('.')[-1] in ('float', 'float64', 'floating') for t_ in (c.args[1].elts if isinstance(c.args[1], ast.Tuple) else [c.args[1]]))
+                                   for c in q.conjuncts(test)):
+            continue
+        for r in body:
+            v = pf.expand(r.value) if r.value is not None else None
+            spec = None
+            if isinstance(v, ast.BinOp) and isinstance(v.op, ast.Mod):
+                pieces = [n.value for n in ast.walk(v.left) if isinstance(n, ast.Constant) and isinstance(n.value, str)]
+                # constant pieces in source order: the conversion character is the last character of the last piece
+                pieces = [n.value for n in sorted((n for n in ast.walk(v.left) if isinstance(n, ast.Constant) and isinstance(n.value, str)), key=lambda n: (n.lineno, n.col_offset))]
+                spec = pieces[-1][-1:] if pieces and pieces[-1] else None
+            elif isinstance(v, ast.Call) and isinstance(v.func, ast.Attribute) and v.func.attr == 'format' and isinstance(const_value(v.func.value), str):
+                t_ = const_value(v.func.value)
+                spec = t_.rstrip('}')[-1:] if t_.endswith('}') and ':' in t_ else None
+            elif isinstance(v, ast.JoinedStr):
+                fv = [x for x in v.values if isinstance(x, ast.FormattedValue)]
+                if len(fv) == 1 and fv[0].format_spec is not None:
+                    cs = [x.value for x in fv[0].format_spec.values if isinstance(x, ast.Constant)]
+                    spec = cs[-1][-1:] if cs and cs[-1] else None
+            elif isinstance(v, ast.Call) and dotted(v.func) in ('repr', 'str', 'float', 'np.format_float_positional'):
+                spec = 'repr'
+            elif isinstance(v, ast.Call) and dotted(v.func) in ('int', 'round') and len(v.args) == 1:
+                spec = 'int'
+            convs.append((r, spec))
+    if not convs:
+        ctx.undecided('C18.T3', pf, 'no branch formatting float cells was recognised')
+    elif all(sp in ('f', 'F', 'e', 'E', 'repr') for _, sp in convs):
+        ctx.holds('C18.T3', pf, 'float cells are written with a conversion that keeps a decimal point or an exponent (%s): they read back as floats, to the written precision' % [sp for _, sp in convs], convs[0][0])
+    elif any(sp in ('g', 'G', 'd', 'i', 'int') for _, sp in convs):
+        b_ = [x for x in convs if x[1] in ('g', 'G', 'd', 'i', 'int')][0]
+        ctx.violated('C18.T3', pf, b_[0], 'float cells are written with conversion `%s`: an integral float (2.0) is written without a decimal point and reads back as an int, and large values keep '
+                     'significant figures instead of decimals' % b_[1])
+    else:
+        ctx.undecided('C18.T3', pf, 'conversion of float cells not recognised (%s)' % [sp for _, sp in convs], convs[0][0])
+
+
 def run(ctx):
     t1_array_codec(ctx)
     t2_key_codec(ctx)
     t5_wiring(ctx)
     t3_tsv(ctx)
+    ctx.part('C18.T3', t3_float_cells)
     t4_write_python(ctx)
 
 LEVEL_TEXT = ('Static table-agreement check of the serialisation code: the JSON array codec (keys, contiguity of the encoded '
@@ -708,5 +813,5 @@ LEVEL_TEXT = ('Static table-agreement check of the serialisation code: the JSON 
               'image of str(int), injectivity), the TSV/CSV writer/reader tables (delimiter table, empty-cell convention, column '
               'order, id typing, int-before-float recovery) and the escaping of strings in the parameter-file writer.')
 LEVEL_NOTE = ('Trusted: Python ast, documented behaviour of json/base64/csv/numpy.frombuffer, the recogniser-language table. '
-              'Not decided: csv quoting, float formatting, exec of the parameter file, value-level round trips.')
+              'Not decided: csv quoting, the number of decimals, exec of the parameter file, value-level round trips.')
 TECHNIQUE = 'static analysis: writer/reader table agreement and codec-structure rules over the ast (custom checker)'
